@@ -671,8 +671,15 @@ class Exec:
                     sc_on = Scope(st, dict(aliases, **{alias: ref}), outer)
                     match = z3.And(tab.has(key), *[truthy(self.ev(c, sc_on)) for c in on_conj])
                     if fresh_k:
-                        raise Undecided('LEFT JOIN %s whose key is not pinned by its ON clause' % item.name)
-                    aliases[alias] = RowRef(tab, key, present=match)
+                        # one result row per matching right row, or a single NULL-extended row when nothing matches
+                        p = z3.Bool(fresh('lj_present_%s' % alias))
+                        alt = [z3.Const(fresh('lj_%s' % k), k.sort()) for k in fresh_k]
+                        none = z3.ForAll(alt, z3.Not(z3.substitute(match, *zip(fresh_k, alt))))
+                        conds.append(z3.Or(z3.And(p, match), z3.And(z3.Not(p), none)))
+                        keyvars.append(p)
+                        aliases[alias] = RowRef(tab, key, present=p)
+                    else:
+                        aliases[alias] = RowRef(tab, key, present=match)
                 else:
                     aliases[alias] = ref
                     conds.append(tab.has(key))
@@ -1018,6 +1025,18 @@ class Exec:
         key = [given[c].v for c in tab.pk]
         existed = tab.has(key)
         outs = []
+        if node.on_duplicate:
+            incs, goals = {}, []
+            for tgt, e in node.on_duplicate:
+                c = tgt.parts[-1]
+                cur = z3.Const(fresh('cur_%s' % c), z3.RealSort() if tab.real[c] else z3.IntSort())
+                r = self.ev_values(e, Scope(st, {tname: DerivedRef({c: SV(False, cur)}, z3.BoolVal(True))}), given)
+                a, b = _num2(r.v, cur)
+                incs[c] = SV(r.n, a - b)
+                if c in given:
+                    g1, g2 = _num2(a - b, given[c].v)
+                    goals.append((c, z3.And(z3.Not(r.n), z3.Not(given[c].n), g1 == g2)))
+            st.emit(Effect('upsert-select', tname, {'kvars': [], 'cond': z3.BoolVal(True), 'key': {c: given[c] for c in tab.pk}, 'values': given, 'increments': incs, 'additivity_goals': goals, 'updated_cols': [t.parts[-1] for t, _ in node.on_duplicate], 'point': True}, node.line, st.depth))
         # duplicate branch
         s_dup = st.fork()
         s_dup.pc.append(existed)
@@ -1113,6 +1132,13 @@ class Exec:
         tab = st.db.tab(tname)
         if not isinstance(sel, A.Select):
             raise Undecided('INSERT ... UNION')
+        additive = None
+        try:
+            additive = self.analyze_upsert(node, tname, cols, sel, st)
+        except Undecided as exn:
+            self.notes.append('INSERT..SELECT into %s at line %s not analysed as an additive upsert: %s' % (tname, node.line, exn))
+        if additive is not None:
+            st.emit(Effect('upsert-select', tname, additive, node.line, st.depth))
         st.emit(Effect('insert-select', tname, {'stmt': node, 'cols': cols, 'select': sel, 'vars': dict(st.vars), 'rows': {k: dict(v) for k, v in st.rows.items()}, 'uservars': dict(st.uservars), 'db': st.db.fork()}, node.line, st.depth))
         # the target table is havocked for this statement; property modules reason about the recorded statement itself
         t2 = st.db.tab(tname)
@@ -1126,6 +1152,37 @@ class Exec:
                     st.uservars[n.target.name] = fresh_sv('uv_' + n.target.name)
         st.row_count = z3.Int(fresh('row_count'))
         return [st]
+
+    def analyze_upsert(self, node, tname, cols, sel, st):
+        """INSERT INTO t (cols) SELECT exprs FROM src WHERE w ON DUPLICATE KEY UPDATE c = c + X ...
+        -> for every source row (kvars satisfying cond): target key terms, inserted values, and per updated column the
+        increment applied on the duplicate branch, with the goal 'increment == inserted value' (additivity)"""
+        tab = st.db.tab(tname)
+        if self.has_aggregate(sel) or sel.group_by or sel.limit is not None:
+            raise Undecided('aggregating source')
+        if sel.from_ is not None:
+            aliases, cond, kv = self.bind_from(sel.from_, sel.where, Scope(st), st)
+        else:
+            aliases, cond, kv = {}, z3.BoolVal(True), []
+        sc = Scope(st, aliases)
+        vals = [self.ev(c.expr, sc) for c in sel.columns]
+        if len(vals) != len(cols):
+            raise Undecided('column count')
+        given = dict(zip(cols, vals))
+        if any(c not in given for c in tab.pk):
+            raise Undecided('target key not fully given')
+        incs, goals = {}, []
+        for tgt, e in node.on_duplicate or []:
+            c = tgt.parts[-1]
+            cur = z3.Const(fresh('cur_%s' % c), z3.RealSort() if tab.real[c] else z3.IntSort())
+            ref = DerivedRef({c: SV(False, cur)}, z3.BoolVal(True))
+            sc2 = Scope(st, dict(aliases, **{tname: ref}))
+            r = self.ev_values(e, sc2, given)
+            a, b = _num2(r.v, cur)
+            incs[c] = SV(r.n, a - b)
+            g1, g2 = _num2(a - b, given[c].v)
+            goals.append((c, z3.And(z3.Not(r.n), z3.Not(given[c].n), g1 == g2)))
+        return {'kvars': kv, 'cond': cond, 'key': {c: given[c] for c in tab.pk}, 'values': given, 'increments': incs, 'additivity_goals': goals, 'pc_len_': len(st.pc), 'updated_cols': [t.parts[-1] for t, _ in node.on_duplicate or []]}
 
     # ---- expressions
     def ev(self, e, sc: Scope) -> SV:
